@@ -91,6 +91,14 @@ def expected_dim_exponents(unit):
     return tuple(acc)
 
 
+def dim_key(dimension):
+    """exponents without trailing zeros: Dimension.define() lengthens every exponents tuple in place"""
+    ex = list(dimension.exponents)
+    while ex and ex[-1] == 0:
+        ex.pop()
+    return tuple(ex)
+
+
 def is_base(unit):
     return len(unit.factors) == 1 and next(iter(unit.factors.items())) == (unit, 1)
 
@@ -115,6 +123,16 @@ def _table_check():
     bad = []
     seen_struct = {}
     seen_nf = {}
+    # one Dimension object per dimension (exponents compared without trailing zeros: Dimension.define lengthens them)
+    canon = {}
+    for dkey, d in list(Dimension._known.items()):
+        k = dim_key(d)
+        if k in canon and canon[k] is not d:
+            bad.append(("C02", "dimension-table:duplicate", "two Dimension objects for exponents %s (keys %s and %s)" % (k, tuple(canon[k].exponents), dkey), d))
+        else:
+            canon[k] = d
+        if tuple(d.exponents) != tuple(dkey):
+            bad.append(("C02", "dimension-table:key-mismatch", "Dimension %s stored under key %s" % (tuple(d.exponents), dkey), d))
     for key, u in list(Unit._known.items()):
         # every factor must be a base unit with a nonzero exponent (canonical normal form)
         for f, e in u.factors.items():
@@ -131,6 +149,10 @@ def _table_check():
             if tuple(u.dimension.exponents) != exp:
                 bad.append(("C01", "table:dimension", "%s stores dimension %s but its factors give %s" % (
                     key_str(u), tuple(u.dimension.exponents), exp), u))
+        # the dimension a unit reports must be THE interned Dimension object of those exponents (canonical objects)
+        if Dimension._known.get(tuple(u.dimension.exponents)) is not u.dimension or canon.get(dim_key(u.dimension)) is not u.dimension:
+            bad.append(("C02", "table:dimension-object-not-canonical", "%s reports a dimension object %r that is not the interned one" % (
+                key_str(u), tuple(u.dimension.exponents)), u))
         # the key under which the object is stored must be the object's own structure
         struct = (id(u.prefix), tuple(sorted((id(f), e) for f, e in u.factors.items())))
         kstruct = (id(key[0]), tuple(sorted((id(f), e) for f, e in key[1])))
